@@ -175,7 +175,15 @@ impl Session {
     p
   }
   fn uri_of(&self, m: &ModName) -> String {
-    format!("file://{}", self.path_of(m).display())
+    // documents that are not files of the workspace: an editor sends requests for whatever the
+    // user has open
+    match m.first().map(|s| s.as_str()) {
+      Some("<outside>") => "file:///tmp/verif-l2-elsewhere/NotInTheWorkspace.sam".to_string(),
+      Some("<untitled>") => "untitled:Untitled-1".to_string(),
+      Some("<rootdir>") => format!("file://{}", self.root.display()),
+      Some("<short>") => format!("file://{}/a", self.root.display()),
+      _ => format!("file://{}", self.path_of(m).display()),
+    }
   }
   fn write_file(&self, m: &ModName, text: &str) {
     let p = self.path_of(m);
@@ -218,6 +226,16 @@ fn plan_op(sess: &mut Session, op: &Op, rng: &mut Rng, stats: &mut simcore::repo
     Op::Update(ms) => {
       let mut created: Vec<ModName> = Vec::new();
       for (m, text) in ms {
+        if rng.chance(1, 60) {
+          // a change notification for a document that is not a file of the workspace (a `.sam`
+          // file opened from elsewhere, an untitled buffer — what an editor's language selector
+          // lets through; the extension-less `<rootdir>` and `<short>` URIs are used for requests
+          // only, since a change notification for them would *create* a module with an empty name)
+          stats.inc("l2_did_change_of_foreign_document");
+          let foreign: ModName = vec![rng.pick(&["<outside>", "<untitled>"]).to_string()];
+          let uri = sess.uri_of(&foreign);
+          sess.notify("textDocument/didChange", json!({"textDocument": {"uri": uri, "version": 1}, "contentChanges": [{"text": text}]}), "didChange(foreign)");
+        }
         disk.push(Disk::Write(m.clone(), text.clone()));
         let known = sess.world.contains_key(m);
         sess.world.insert(m.clone(), text.clone());
